@@ -48,17 +48,17 @@ func alphabet(reduced bool) []string {
 		a = append(a, t.String())
 	}
 	a = append(a,
-		"x",        // identifier (predeclared as a list, assignable)
-		"1",        // int
-		"1.5",      // float
-		`"s"`,      // string
-		`b"b"`,     // bytes
-		"\n",       // newline
-		"\n  ",     // newline + indentation
-		"\\\n",     // line continuation
-		"#c\n",     // comment
-		"\xff",     // stray non-ASCII byte
-		"\x00",     // NUL
+		"x",    // identifier (predeclared as a list, assignable)
+		"1",    // int
+		"1.5",  // float
+		`"s"`,  // string
+		`b"b"`, // bytes
+		"\n",   // newline
+		"\n  ", // newline + indentation
+		"\\\n", // line continuation
+		"#c\n", // comment
+		"\xff", // stray non-ASCII byte
+		"\x00", // NUL
 	)
 	return a
 }
